@@ -303,6 +303,8 @@ def make_algo(sc, env):
     if comp == 'ga':
         import msdm.algorithms.fscgradientascent as m
         return m.FSCGradientAscent(controller_state_count=p['nodes'], iterations=p['iterations'], seed=seed)
+    if comp == 'semimdp':
+        return {}        # holder: run_component keeps the semi-MDP and its option here, so that a re-run after an abort uses the same objects
     return None
 
 
@@ -392,7 +394,12 @@ def run_component(sc, problem, algo, env):
                     first.next_state_transit_time_reward_dist(s0, o)
                 except Exception:
                     pass
-        smdp = algo if algo is not None else sm.SemiMarkovDecisionProcess(mdp=problem, options=[o], n_option_simulations=p['nsim'], seed=seed)
+        if isinstance(algo, dict) and 'smdp' in algo:
+            smdp, o = algo['smdp'], algo['option']
+        else:
+            smdp = sm.SemiMarkovDecisionProcess(mdp=problem, options=[o], n_option_simulations=p['nsim'], seed=seed)
+            if isinstance(algo, dict):
+                algo.update(smdp=smdp, option=o)
         out = []
         from msdm.core.exceptions import AlgorithmException
         for s in states[:3]:
@@ -401,7 +408,26 @@ def run_component(sc, problem, algo, env):
                 out.append(sorted(([canon(k), float(v)] for k, v in d.items()), key=lambda x: str(x[0])))
             except AlgorithmException:
                 out.append('limit')
-        return dict(dists=out)
+        pairs = []
+        if 'limit' in out and not p.get('planned'):
+            # the less common exit: a query died on the step limit; the user raises the limit and asks the SAME semi-MDP again.
+            # It must answer like an equally seeded semi-MDP that never saw the failed query
+            s0 = states[out.index('limit')]
+            old_ms = o.max_steps
+            try:
+                o.max_steps = 10 ** 4
+                fresh = sm.SemiMarkovDecisionProcess(mdp=problem, options=[o], n_option_simulations=p['nsim'], seed=seed)
+                res = []
+                for which in (smdp, fresh):
+                    try:
+                        d = which.next_state_transit_time_reward_dist(s0, o)
+                        res.append(sorted(([canon(k), float(v)] for k, v in d.items()), key=lambda x: str(x[0])))
+                    except AlgorithmException:
+                        res.append('limit')
+                pairs.append(["semimdp: the query that hit the step limit, repeated with a higher limit on the same semi-MDP vs on a fresh equally seeded one", res[0], res[1]])
+            finally:
+                o.max_steps = old_ms
+        return dict(dists=out, must_equal=pairs)
     if comp == 'implicit':
         from msdm.core.distributions import ImplicitDistribution
         pr = p['p']
